@@ -1,7 +1,7 @@
 SPECIFICATION Spec
 CONSTANTS Depth = 2
- MaxSize = 6
- CoreSize = 3
+ MaxSize = 8
+ CoreSize = 5
 INVARIANT TermOK
 INVARIANT NonVacuous
 CHECK_DEADLOCK FALSE
